@@ -32,6 +32,8 @@ def campaign(c):
         netscen.run_scenario(c, c.rng.fork('optgrid%d' % i), 'ip', ['opt-grid'], project)
     netscen.run_scenario(c, c.rng.fork('nonemit'), 'ip', ['non-emitting'], project)
     netscen.run_scenario(c, c.rng.fork('ports'), 'ip', ['port-classes'], project)
+    for i in range(2 if c.quick else 10):
+        netscen.run_scenario(c, c.rng.fork('pieces%d' % i), 'ip', ['pieces'], project)
     for i in range(3 if c.quick else 30):
         netscen.run_scenario(c, c.rng.fork('fanout%d' % i), 'ip', ['fan-out'], project)
     for i in range(2 if c.quick else 12):
